@@ -13,7 +13,8 @@ RULE = ('Graphs as C12 x 4 drawn queries (root in the graph, v in {None, node, u
         'directed) present at t with start <= t <= end and s < t, or s == t when X@s is a source occurrence of u; sources '
         '== occurrences of u at the window ids where u has a neighbour; targets == the DAG nodes with a predecessor that '
         'are occurrences of v (of any node when v is None); sources and targets are DAG nodes, without duplicates; '
-        'invalid windows raise ValueError; a graph without snapshots gives an empty DAG and empty lists. '
+        'invalid windows raise ValueError; a graph without snapshots gives an empty DAG and empty lists; every answer belongs to its caller '
+        '(it is written into / emptied after the checks, and the same question asked again must give the first answer). '
         'non-trivial = the DAG has >= 3 edges over >= 2 distinct instants.')
 ASSUMPTIONS = ['e > t', "node ids are ints or '_'-free strings"]
 TECHNIQUE = 'PBT with a validity predicate over the returned DAG, sources and targets; exhaustive small universes (thorough)'
@@ -68,6 +69,8 @@ def run_case(case, rec):
     rec.check('C15.empty', ok and isinstance(out, tuple) and len(out) == 5 and out[0].number_of_nodes() == 0 and
               out[0].number_of_edges() == 0 and list(out[1]) == [] and list(out[2]) == [],
               lambda: 'temporal_dag on a graph without snapshots returned %r' % (out,))
+    # the caller owns what it got: writing into it must not show in any later answer (checked by the next case)
+    safe(lambda: (out[0].add_edge('x_0', 'y_1'), out[1].append('x_0'), out[2].append('y_1')))
     if not ids:
         return False
     O = pc.PathOracle(M)
@@ -133,6 +136,13 @@ def run_case(case, rec):
         times = {decode(b, ntype)[1] for a, b in DAG.edges() if decode(b, ntype)}
         if DAG.number_of_edges() >= 3 and len(times) >= 2:
             nontrivial = True
+        # ... likewise for a real answer: empty what was returned, ask again, compare with what was returned first
+        snap = (set(DAG.edges()), set(DAG.nodes()), sorted(sources), sorted(targets))
+        safe(lambda: (DAG.clear(), out[1].clear() if isinstance(out[1], list) else None, out[2].clear() if isinstance(out[2], list) else None))
+        ok2, out2 = safe(al.temporal_dag, G, u, v, start, end)
+        rec.check('C15.fresh_answer', ok2 and (set(out2[0].edges()), set(out2[0].nodes()), sorted(out2[1]), sorted(out2[2])) == snap,
+                  lambda: '%s asked again after the first answer was emptied by its caller: %r, first answer had edges %r' % (
+                      ctx, (sorted(out2[0].edges()), list(out2[1]), list(out2[2])) if ok2 else out2, sorted(snap[0])))
         rec.classify('DAG edges: %s' % ('0' if DAG.number_of_edges() == 0 else '1-2' if DAG.number_of_edges() < 3 else '3-9' if DAG.number_of_edges() < 10 else '10+'))
         if loop:
             rec.classify('root self-loop in window')
